@@ -72,12 +72,18 @@ var blockCores = []string{
 	"c = make(chan int64)\nfor x in c {\n}",
 	"c = make(chan int64)\nv = <- c",
 	"c = make(chan int64)\nv, ok = <- c",
+	// the forwarding form dst <- src: blocked in its send half (an item was taken, nobody receives) and in its receive half
+	"src = make(chan int64, 1)\nsrc <- 1\nout = make(chan int64)\nout <- src",
+	"src = make(chan int64)\nout = make(chan int64, 1)\nout <- src",
+	"src = make(chan int64, 2)\nsrc <- 1\nsrc <- 2\nout = make(chan int64, 1)\nfor {\nout <- src\n}",
+	"c = make(chan int64, 1)\nc <- 1\nc <- <- c\nc <- 2",
 }
 
 type cancelReq struct {
 	Src     string `json:"src"`
 	AfterMs int    `json:"after_ms"`
 	NoLate  bool   `json:"no_late"` // skip the late-probe observation (fast repetitions)
+	WaitMs  int    `json:"wait_ms"` // how long to wait for RunContext after the cancellation (0 = 1500)
 	Prelude string `json:"prelude"` // run first on the same environment with vm.Execute (context.Background): a library loaded earlier
 }
 
@@ -132,6 +138,10 @@ func cancelInWorker(req cancelReq) cancelResp {
 		}()
 		_, runErr = vm.RunContext(ctx, e, &vm.Options{}, stmt)
 	}()
+	wait := req.WaitMs
+	if wait == 0 {
+		wait = 1500
+	}
 	time.Sleep(time.Duration(req.AfterMs) * time.Millisecond)
 	t0 := time.Now()
 	cancel()
@@ -153,7 +163,7 @@ func cancelInWorker(req cancelReq) cancelResp {
 		mu.Lock()
 		resp.TraceLate = n
 		mu.Unlock()
-	case <-time.After(1500 * time.Millisecond):
+	case <-time.After(time.Duration(wait) * time.Millisecond):
 		resp.Returned = false
 	}
 	return resp
@@ -327,6 +337,20 @@ func streamCancel(o *Out, r *rand.Rand, n int, thorough bool) {
 			o.Fail(Failure{Oracle: "cancel-stops-script", Key: "cancel-not-honoured:" + c.name, Input: c.src, Detail: "child process: " + ans})
 			continue
 		}
+		slowLimit := 1000
+		if !resp.Returned || (resp.Panic == "" && resp.Err == "execution interrupted" && resp.TookMs > slowLimit) {
+			// not back in time: before this counts, once more alone with a generous allowance (a loaded machine can
+			// delay a goroutine by more than a second; a script that ignores the cancellation never comes back)
+			stopWorker()
+			b2, _ := json.Marshal(cancelReq{Src: c.src, AfterMs: cr.after, NoLate: cr.noLate, Prelude: cr.prelude, WaitMs: 8000})
+			ans2 := runIsolatedRaw("cancel", string(b2), 12*time.Second)
+			var resp2 cancelResp
+			if err := json.Unmarshal([]byte(ans2), &resp2); err == nil {
+				resp = resp2
+				slowLimit = 5000
+				o.Sum.Hist["wallclock:second-look"]++
+			}
+		}
 		if !resp.Returned {
 			notHonoured[c.name]++
 			stopWorker() // the child leaves after a run it could not stop; start a fresh one
@@ -335,10 +359,10 @@ func streamCancel(o *Out, r *rand.Rand, n int, thorough bool) {
 		case resp.Panic != "":
 			o.Fail(Failure{Oracle: "no-panic", Key: "cancel-panic", Input: c.src, Detail: resp.Panic})
 		case !resp.Returned:
-			o.Fail(Failure{Oracle: "cancel-stops-script", Key: "cancel-not-honoured:" + c.name, Input: c.src, Detail: "RunContext had not returned 1.5 s after the context was cancelled"})
+			o.Fail(Failure{Oracle: "cancel-stops-script", Key: "cancel-not-honoured:" + c.name, Input: c.src, Detail: "RunContext had not returned 1.5 s after the context was cancelled, nor 8 s after it in a second run alone"})
 		case resp.Err != "execution interrupted":
 			o.Fail(Failure{Oracle: "cancel-error-message", Key: "cancel-swallowed:" + c.name, Input: c.src, Detail: "returned error " + resp.Err})
-		case resp.TookMs > 1000:
+		case resp.TookMs > slowLimit:
 			o.Fail(Failure{Oracle: "cancel-bounded-time", Key: "cancel-slow:" + c.name, Input: c.src, Detail: fmt.Sprintf("returned %d ms after the cancellation", resp.TookMs)})
 		case resp.TraceLate != resp.Trace && !strings.Contains(c.src, "go func"):
 			o.Fail(Failure{Oracle: "cancel-no-further-statements", Key: "cancel-continued:" + c.name, Input: c.src, Detail: fmt.Sprintf("%d probes at return, %d shortly after", resp.Trace, resp.TraceLate)})
